@@ -219,7 +219,9 @@ CHECKS['C16'] = dict(
     text=('Decision logic stated outright and proved: the signature of a database contains exactly the models the '
           'router allows there (C16_sig), a model routed elsewhere is in neither signature, and a mutation on a model '
           'outside both signatures is dropped by the changed-models filter, i.e. neither simulated nor lowered '
-          '(C16_skip). On the real code: every split of 2-3 generated models over two SQLite files by a router, '
+          '(C16_skip); what is loaded for a list of pending labels on a database is the concatenation of what each label '
+          'ships for that database - SQL file there, else Python module (C16_labels_load_independently, flag handling '
+          'read from the source: C16_source_found_reset; counterexample for a flag that sticks). On the real code: every split of 2-3 generated models over two SQLite files by a router, '
           'creation and a generated evolution with mutations on both sides, each database evolved in turn: tables, '
           'stored signatures, and a byte-for-byte unchanged snapshot of the database that is not being evolved; a '
           'failing evolution on the non-default database must roll back there (finding F10, repaired by a fix: commit).'),
@@ -251,7 +253,7 @@ CHECKS['C14'] = dict(
           'sorts or walks the declared list (C14_perm_invariant), with a counterexample for iteration over the set itself '
           '(finding F14, repaired in /repo); the iteration mode of change_meta_unique_together / '
           'change_meta_index_together is extracted from the source on every run and C14_source_iteration_deterministic '
-          'is re-checked against it, likewise the walk over DeleteModel\'s join tables (C14_source_delete_model_ordered). C14_equal_if_defs_unchanged / C14_cex_preview_differs: a second optimiser pass over '
+          'is re-checked against it, likewise the walk over DeleteModel\'s join tables (C14_source_delete_model_ordered); preview and execution load the same evolution files on every database when both call sites hand on the alias (C14_preview_loads_what_execution_loads, C14_source_loads_pass_database). C14_equal_if_defs_unchanged / C14_cex_preview_differs: a second optimiser pass over '
           'definitions the first pass left alone gives the same list, and not otherwise. On the real code every case '
           '(generated upgrades with rows plus the family "unique_together/index_together from one set of 0-4 pairs to '
           'another") runs in 4 (quick) / 16 (thorough) fresh processes with different PYTHONHASHSEED; each runs '
